@@ -171,7 +171,7 @@ PROPS['C03'] = dict(
 PROPS['C06'] = dict(
     id='C06', domains=['trunc', 'unm'], no_model={'trunc': True},
     n=dict(quick=dict(trunc=120, unm=1500), thorough=dict(trunc=1500, unm=60000)),
-    theorems=[('Properties.C06', ['C06_complete_header_section_survives_any_remainder', 'C06_cut_at_the_end_of_record_marker_is_reported', 'C06_complete_marker_is_accepted'])],
+    theorems=[('Properties.C06', ['C06_complete_header_section_survives_any_remainder', 'C06_cut_at_the_end_of_record_marker_is_reported', 'C06_complete_marker_is_accepted', 'C06_complete_records_before_the_cut_survive'])],
     kinds={'panic', 'hang', 'wellformed-file-not-clean', 'complete-record-lost', 'partial-record-clean', 'truncation-invisible'},
     rule='trunc: well-formed files of 1-3 records (all block kinds, plain or per-record gzip), read under warn or strict: 50 seeded cut positions plus 19 positions around every record boundary per file (thorough: EVERY cut position): records wholly inside the prefix come back unaltered, clean and at the same offsets; nothing clean after them; a cut inside a record is visible (non-EOF error, finding, or EOF offset < prefix length); unm: model correspondence incl. cut gzip members',
     level_text='PARTIAL proof. Proved in Coq (C06_complete_records_before_the_cut_survive): for every sequence of valid records followed by ANY remainder (the prefix of a cut record, junk, nothing) and any stream tail, sequential reading returns exactly those records, clean and at their offsets, then continues on the remainder - complete records survive every cut. Also: a complete header section parses to exactly its fields whatever follows; a stream ending inside or right before the end-of-record marker is reported under warn/fail; a complete marker is accepted; the parser never consumes beyond its input (C05). Not mechanised: that a remainder ending inside the version line, header or block is always visible (needs the parse of every proper prefix), and the gzip container; evaluated on the implementation for the sampled (quick) or all (thorough) cut positions',
